@@ -206,13 +206,26 @@ package xmpp
 //@ pred pendingIQ(r, p) := typeof(p) == *stanza.IQ && r.IQResultRoutes != nil && mapHas(r.IQResultRoutes, p.(*stanza.IQ).Id)
 //@ pred plainPacket(r, p) := typeof(p) != stanza.SMAnswer && !pendingIQ(r, p)
 //
+// C10: the acknowledgement arithmetic, from the property statement. ackedPrefix(q, h, k): exactly the first k held
+// stanzas have a sequence number <= h (a prefix, because sequence numbers increase).
+//@ pred ackedPrefix(q, h, k) := 0 <= k && k <= len(q.Uslice) && forall(i, 0, k, q.Uslice[i].Id <= h) && forall(i, k, len(q.Uslice), q.Uslice[i].Id > h)
 //@ func xmpp.SendMissingStz(lastSent, s, uaq) (err)
 //@   requires s != nil
-//@   requires wfQueue(uaq) && (uaq != nil ==> uaq == senderQueue(s))
+//@   requires wfQueue(uaq) && (uaq != nil ==> uaq == senderQueue(s) && !locked(addr(uaq.RWMutex)))
 //@   ensures [C05.nilqueue] uaq == nil ==> err == nil && count(Send) == old(count(Send)) && count(SendRaw) == old(count(SendRaw))
+//@   ensures [C10.ack.empty]   (uaq != nil && old(len(uaq.Uslice)) == 0) ==> err == nil && count(Send) == old(count(Send)) && count(SendRaw) == old(count(SendRaw)) && len(uaq.Uslice) == 0
+//@   ensures [C10.ack.dropped] (uaq != nil && err == nil) ==> exists(k, 0, old(len(uaq.Uslice)) + 1, old(ackedPrefix(uaq, lastSent, k)) && len(uaq.Uslice) == old(len(uaq.Uslice)) - k && forall(i, 0, len(uaq.Uslice), uaq.Uslice[i].Stz == old(uaq.Uslice[i + k].Stz)))
+//@   ensures [C10.ack.resent]  (uaq != nil && err == nil) ==> exists(k, 0, old(len(uaq.Uslice)) + 1, old(ackedPrefix(uaq, lastSent, k)) && count(SendRaw) - old(count(SendRaw)) == old(len(uaq.Uslice)) - k && forall(i, 0, old(len(uaq.Uslice)) - k, arg(SendRaw, old(count(SendRaw)) + i, 1) == old(uaq.Uslice[i + k].Stz)))
+//@   ensures [C10.ack.request] (uaq != nil && err == nil) ==> (count(Send) - old(count(Send)) == ite(count(SendRaw) > old(count(SendRaw)), 1, 0)) && (count(Send) > old(count(Send)) ==> typeof(last(Send, 1)) == stanza.SMRequest && atlast(SendRaw) < atlast(Send))
+//@   ensures [C10.ack.lock]    uaq != nil ==> !locked(addr(uaq.RWMutex))
 //@   ensures wfQueue(uaq) && backingOK(uaq)
-//@   assigns uaq.Uslice, senderQueue(s).Uslice
+//@   assigns uaq.Uslice, senderQueue(s).Uslice, locked(addr(uaq.RWMutex))
 //@   emits Send, SendAttrs, SendRaw, Write
+//@   loop 1:
+//@     invariant uaq != nil && s != nil && wfQueue(uaq) && uaq == senderQueue(s) && (base(uaq.Uslice) == old(base(uaq.Uslice)) || fresh(uaq.Uslice))
+//@     invariant count(Send) == old(count(Send)) && count(SendRaw) == old(count(SendRaw)) + $i && locked(addr(uaq.RWMutex))
+//@     invariant [C10.ack.resent] forall(j, 0, $i, arg(SendRaw, old(count(SendRaw)) + j, 1) == $range[j].(*stanza.UnAckedStz).Stz)
+//@     invariant 0 <= $i && $i <= len($range) && forall(k, 0, len($range), typeof($range[k]) == *stanza.UnAckedStz && $range[k].(*stanza.UnAckedStz) != nil)
 //
 //@ func (*xmpp.Router).route(r, s, p)
 //@   emit Routed(s, p)
